@@ -20,8 +20,9 @@
              H / O      one hex / octal digit
            JsonStr / GoStr / ColStr are recognisers of the string grammars of RFC 8259, of
            strconv.Unquote + "stays on one line", and of "Go syntax without raw control bytes".
-           EscJSON / EscGo / EscCol are the escapers the properties call for; EscMech is the
-           transcription of the library's only escaper (pc.go appendEscapedRune).
+           EscJSON / EscGo (= Esc(fmt, c)) are the escapers the properties call for; EscMech
+           is the transcription of the library's only escaper (pc.go appendEscapedRune).
+           Mode(fmt, c, form) names how an observed emission fails ("raw", "go-escape", ...).
            Invariants  Legal, OneLine, RoundTrip, NoForgery, NoRawControl  range over the
            whole class table.  `MechIsJson` (expected to FAIL) shows that the Go-syntax
            escaper cannot satisfy the JSON grammar and for which classes.
@@ -31,8 +32,10 @@
            list of logfmt / colored - a group's members appear under path.key wherever the
            group sits.  The builder machine (variable `flat`, action AddNode) enumerates
            every tree up to MaxNodes nodes; invariants MergeSorted, MergeLastWins,
-           MergeIdempotent, PairsAscending, MembersCount are evaluated on every tree and
-           `Export` prints each tree once so that the harness replays exactly TLC's set.
+           MergeIdempotent, PairsAscending, PairsComplete, MembersCount are evaluated on every
+           tree; the model-checking module adds `Export`, which prints each tree once so that
+           the harness replays exactly TLC's set.  TreeFeatures names the shapes of a tree
+           (group, after-group, empty-group, nested-group, duplicate-key, empty-key).
    Part C  colour hygiene.  A terminal-state machine (fg, bg, attributes; SGR 0 resets)
            is driven by a stream of integers: an SGR parameter (>= 0) or Brk (a line
            break).  ResetAtBreak(stream, n) = the state is the reset state at the first n
@@ -40,9 +43,12 @@
            colours switched on and off; invariant ColourOK checks it for every tree, every
            colour class of severity and 1..3 message lines.  CRStream is the witness for
            the library's CR deviation (expected to fail).
-   Part D  the verdict on an observation (used by EncoderTrace): JsonDiag / LogfmtDiag /
-           ColorDiag return the set of violated clauses of the property for one record and
-           the harness's projection of the bytes the library wrote for it.
+   Part D  the verdict on an observation (used by EncoderTrace): JsonDiag (C04) / LogfmtDiag
+           (C05) / ColorDiag (C06) return the set of violated clauses of the property for one
+           record and the harness's projection of the bytes the library wrote for it;
+           AcceptJSON / AcceptLogfmt / AcceptColor list the representations a statement leaves
+           open (nil as null or placeholder, number or exact decimal string, ...); InDomain is
+           the input domain of each property.
 
    The module never looks at bytes: byte-level fidelity inside a class (is the decoded
    string equal to the input?) is decided by the independent decoders of the harness and
@@ -53,7 +59,7 @@ CONSTANTS MaxNodes,     \* builder bound: number of nodes of a tree
           KeyIds,       \* key identities the builder may use (0 = the empty key)
           MaxDepth      \* builder bound: nesting depth of groups
 
-VARIABLE flat           \* tree under construction, preorder: <<[d |-> depth, k |-> key, g |-> isGroup]>>
+VARIABLE flat           \* tree under construction, preorder: <<[d |-> depth, k |-> key, g |-> isGroup, v |-> value id]>>
 
 ----------------------------------------------------------------------------
 (* Part A: character classes and escaping *)
@@ -197,11 +203,6 @@ Flat(s, path) ==
 Members(rec) == Merge(rec.attrs)
 Pairs(rec)   == Flat(Merge(rec.attrs), <<>>)
 
-RECURSIVE Count(_)
-Count(s) == IF s = <<>> THEN 0 ELSE 1 + Count(Head(s).sub) + Count(Tail(s))
-RECURSIVE Sum(_)
-Sum(q) == IF q = <<>> THEN 0 ELSE Head(q) + Sum(Tail(q))
-
 \* lexicographic order of paths (sequences of key ids)
 RECURSIVE PathLess(_, _)
 PathLess(p, q) == IF p = <<>> THEN q # <<>>
@@ -296,8 +297,6 @@ ResetAtBreak(s, n) ==
     LET b == AtBreaks(s, 1, ResetState)
     IN /\ b[Len(b)] = ResetState
        /\ \A i \in 1..(Len(b) - 1) : i <= n => b[i] = ResetState
-DirtyBreaks(s, n) == LET b == AtBreaks(s, 1, ResetState)
-                     IN {i \in 1..Len(b) : (i <= n \/ i = Len(b)) /\ b[i] # ResetState}
 
 \* colour classes of a severity: fg only, fg+bg attribute, nothing registered
 SevColours == {<<36>>, <<33, 2>>, <<97, 5>>, <<>>}
@@ -352,7 +351,6 @@ AcceptLogfmt(kind) ==
       [] OTHER -> {"list", "quoted"}
 AcceptColor(kind) == {"quoted", "bare", "list"}                  \* C06 fixes no value syntax
 
-IsSeq(x) == DOMAIN x = 1..Len(x)
 Occurs(q, x) == Cardinality({i \in DOMAIN q : q[i] = x})
 
 \* the decoder reports in vs the identities of all input values (under that key path) that the
